@@ -27,6 +27,7 @@ import (
 type c10Op struct {
 	Op string `json:"op"`          // sub | batch | adv | advbatch | read | readall | cancel | close
 	P  bool   `json:"p,omitempty"` // sub: prompt reader (true) or reader on command (false)
+	C  bool   `json:"c,omitempty"` // sub: the context passed to Subscribe has ALREADY ended
 	K  int    `json:"k,omitempty"` // batch: key
 	D  int    `json:"d,omitempty"` // adv: milliseconds
 	I  int    `json:"i,omitempty"` // read/readall/cancel: subscriber index (order of sub ops)
@@ -260,6 +261,9 @@ func c10Exec(in c10Input) ([]c10Ev, error) {
 			i := len(r.subs)
 			r.subs = append(r.subs, s)
 			go r.consumer(i, s, op.P)
+			if op.C {
+				cancel()
+			}
 			call(step, func() { r.b.Subscribe(ctx, s.ch) })
 		case "batch":
 			k, v := op.K, step
